@@ -357,7 +357,11 @@ def run(prop, tier, seed, t0):
     if tier == 'quick':
         tasks += plan.spread_tasks('vlib.props.c04', 'task', prop, seed, 96, cb, ntasks=8)
         tasks.append(('vlib.props.c04', 'task_digits', prop, seed * 1000 + 50, 0, cb, {}))
-        for i, bigs in enumerate([(189, 190), (191, 500), (499, 800), (501, 799), (801,), (1000,)]):
+        # the documented switches (190, 500, 800) from both sides, plus sizes drawn from the seed in every range
+        import random as _r
+        rs = _r.Random(seed * 104729 + 5)
+        drawn = [(rs.randrange(9, 64), rs.randrange(65, 189)), (rs.randrange(192, 499),), (rs.randrange(502, 799),), (rs.randrange(802, 1100),)]
+        for i, bigs in enumerate([(189, 190), (191, 500), (499, 800), (501, 799), (801,), (1000,)] + drawn):
             tasks.append(('vlib.props.c04', 'task', prop, seed * 1000 + 60 + i, 0, cb, {'big': bigs}))
     else:
         tasks += plan.spread_tasks('vlib.props.c04', 'task', prop, seed, 6000, cb, ntasks=48)
